@@ -109,13 +109,17 @@ class MultiObjectiveProblem(Problem[P]):
         self.n_objectives = len(self.minimize) if isinstance(self.minimize, list) else None
         self.initialized = not isinstance(self.minimize, bool) and self.n_objectives is not None
 
-        def default_single_objective_merge(d: Any) -> float:
+        def default_single_objective_merge(d: Any, fitnesses: list[float] | None = None) -> float:
+            if fitnesses is None:
+                fitnesses = fitness_function(d)
             if isinstance(self.minimize, list):
-                return sum(m and -fit or +fit for (fit, m) in zip(fitness_function(d), self.minimize))
+                return sum(m and -fit or +fit for (fit, m) in zip(fitnesses, self.minimize))
             elif isinstance(self.minimize, bool):
-                return sum(-fit if self.minimize else fit for fit in fitness_function(d))
+                return sum(-fit if self.minimize else fit for fit in fitnesses)
             else:
                 assert False, "minimize must be either a list[bool] or a bool"
+
+        self.default_merge = default_single_objective_merge if best_individual_criteria_function is None else None
 
         self.ff = {
             "ff": fitness_function,
@@ -137,7 +141,10 @@ class MultiObjectiveProblem(Problem[P]):
             self.n_objectives = len(multiple)
             self.initialized = True
         if self.ff["aggregate_fitness"] is None:
-            single = self.ff["best_individual"](phenotype)
+            if self.default_merge is not None:
+                single = self.default_merge(phenotype, multiple)
+            else:
+                single = self.ff["best_individual"](phenotype)
         else:
             single = self.ff["aggregate_fitness"](multiple)
         return Fitness(single, multiple)
